@@ -100,6 +100,10 @@ func gapCorpus() []*CaseSpec {
 		{"x-ni/add-v4|del-nhg", true, []Step{addOther, nh(1, 1, A), nhg(2, 1, 1, A), with(xv4(3, "1.0.0.0/8", 1, A), nhg(4, 1, 1, D)), xv4(5, "1.0.0.0/8", 1, D), nhg(6, 1, 1, D), nh(7, 1, D)}},
 		{"x-ni/del-nhg|add-v4", true, []Step{addOther, nh(1, 1, A), nhg(2, 1, 1, A), with(nhg(3, 1, 1, D), xv4(4, "1.0.0.0/8", 1, A)), xv4(5, "1.0.0.0/8", 1, D), nhg(6, 1, 1, D), nh(7, 1, D)}},
 		{"x-ni/add-nhg-releases-held-v4|del-v4", true, []Step{addOther, nh(1, 1, A), xv4(2, "1.0.0.0/8", 1, A), with(nhg(3, 1, 1, A), xv4(4, "1.0.0.0/8", 1, D)), xv4(5, "1.0.0.0/8", 1, D), nhg(6, 1, 1, D), nh(7, 1, D)}},
+		// a Flush (hook registered) overlapped by the re-ADD of a next-hop it removes: the
+		// notifications, folded in the order they are delivered, give the contents
+		{"hook/flush|add-nh", true, []Step{{Kind: "sethook"}, nh(1, 1, A), nhg(2, 1, 1, A), v4(3, "1.0.0.0/8", 1, A), with(Step{Kind: "flush", NIs: []string{ni}}, nh(4, 1, A)), nh(5, 1, D)}},
+		{"hook/flush|add-v4-held", true, []Step{{Kind: "sethook"}, nh(1, 1, A), nhg(2, 1, 1, A), v4(3, "1.0.0.0/8", 1, A), with(Step{Kind: "flush", NIs: []string{ni}}, nh(4, 2, A)), nh(5, 2, D)}},
 		// DELETE of a next-hop overlapped by the ADD of a group listing it
 		{"del-nh|add-nhg", true, []Step{nh(1, 1, A), with(nh(2, 1, D), nhg(3, 1, 1, A)), nhg(4, 1, 1, D), nh(5, 1, D)}},
 	}
